@@ -112,6 +112,34 @@ namespace mpf = boost::multiprecision;
 namespace soplex
 {
 
+#ifdef SCIPOPT_SOPLEX_VERIF
+/// verification hook (add-only): while a sink is installed in this thread, the floating-point solve driver
+/// (_optimize, _preprocessAndSolveReal, _evaluateSolutionReal, _storeSolutionReal, ...) appends one record
+/// (code, a, b, c, d) per control decision to it; nothing is recorded and nothing else changes otherwise
+inline std::vector<long>*& verifDriverTraceSink()
+{
+   static thread_local std::vector<long>* sink = nullptr;
+   return sink;
+}
+
+inline void verifDriverTrace(long code, long a = 0, long b = 0, long c = 0, long d = 0)
+{
+   std::vector<long>* sink = verifDriverTraceSink();
+
+   if(sink != nullptr)
+   {
+      sink->push_back(code);
+      sink->push_back(a);
+      sink->push_back(b);
+      sink->push_back(c);
+      sink->push_back(d);
+   }
+}
+#define SOPLEX_VERIF_DRIVER_TRACE(...) verifDriverTrace(__VA_ARGS__)
+#else
+#define SOPLEX_VERIF_DRIVER_TRACE(...)
+#endif
+
 /**@class SoPlex
  * @brief   Preconfigured SoPlex LP-solver.
  * @ingroup Algo
